@@ -207,7 +207,8 @@ pub fn judge_session(sc: &Scenario, res: &SimResult, tr: &Trace, j: Judge, acc: 
             }
             "isready" => {
                 let n_ok = c.outs.iter().filter(|o| o.tid == 0 && o.line == "readyok").count();
-                let cut_short = last && !matches!(tr.end, SimEnd::Exit(_) | SimEnd::IoReturned | SimEnd::ScriptDone | SimEnd::EofSpin);
+                let waited_in_vain = last && matches!(&tr.end, SimEnd::GuiTimeout(w) if w == "readyok");
+                let cut_short = last && !waited_in_vain && !matches!(tr.end, SimEnd::Exit(_) | SimEnd::IoReturned | SimEnd::ScriptDone | SimEnd::EofSpin);
                 if j.c08 && n_ok != 1 && !cut_short {
                     v("C08", format!("C08/isready/readyok-count-{}", n_ok.min(2)), format!("isready answered by {} readyok lines", n_ok), acc);
                 }
